@@ -423,7 +423,7 @@ def check_pack(ctx, res: Result, prop_id: str):
             if imp[0] == "symbol" and imp[1] in ctx.prog.modules and imp[1].split(".")[-1].startswith("_") and ctx.prog.modules[imp[1]] not in mods:
                 mods.append(ctx.prog.modules[imp[1]])
     fis = [fi for fi in ctx.prog.functions.values() if fi.module in mods]
-    lints = (("G-STALE", check_stale_in_loop), ("G-REUSE", check_iterator_reuse), ("N-FANCYAUG", check_fancy_augassign), ("G-GROUPBY", check_groupby_sorted), ("E-SHARED", check_shared_literals), ("G-LIVEITER", check_mutation_while_iterating), ("E-DEFAULTARG", check_mutable_defaults), ("G-KEYPROJ", check_key_projection), ("K-OWNER", check_id_owner), ("G-COUNTERADD", check_counter_arith), ("G-ZEROBUCKET", check_zero_buckets), ("G-LENVALID", check_len_validated_cache), ("G-SHAPEGUESS", check_layout_guess), ("K-LABELTYPE", check_label_type_dispatch), ("G-ZIPALIGN", check_zip_alignment), ("G-TRUTHY0", check_truthy_index))
+    lints = (("G-STALE", check_stale_in_loop), ("G-REUSE", check_iterator_reuse), ("N-FANCYAUG", check_fancy_augassign), ("G-GROUPBY", check_groupby_sorted), ("E-SHARED", check_shared_literals), ("G-LIVEITER", check_mutation_while_iterating), ("E-DEFAULTARG", check_mutable_defaults), ("G-KEYPROJ", check_key_projection), ("K-OWNER", check_id_owner), ("G-COUNTERADD", check_counter_arith), ("G-ZEROBUCKET", check_zero_buckets), ("G-LENVALID", check_len_validated_cache), ("G-SHAPEGUESS", check_layout_guess), ("K-LABELTYPE", check_label_type_dispatch), ("G-ZIPALIGN", check_zip_alignment), ("G-TRUTHY0", check_truthy_index), ("G-PYTRAP", check_python_traps), ("G-LOSSYKEY", check_lossy_keys), ("G-TRISTATE", check_tristate_flag), ("N-TRACEMUL", check_trace_of_elementwise))
     seen_keys = {(o.rule, o.func, o.stmt) for o in res.obs}
     for rule, fn in lints:
         n_f = n_v = 0
@@ -995,3 +995,240 @@ def check_truthy_index(ctx, res: Result, dotted, rule="G-TRUTHY0"):
                     res.violation(rule, f, norm(test)[:100], atom.id, f"`{atom.id}` is None until it is given a loop index, and `{norm(test)[:50]}` tests it by truthiness: index 0 counts as `nothing yet`, so whatever the first item stored is overwritten by the next one (the best-so-far bookkeeping forgets item 0)", loc(fi, t))
     if n == 0:
         res.ok(rule, f, "no truthiness test of a None-or-index local", "scan", loc(fi, fi.node))
+
+
+def check_python_traps(ctx, res: Result, dotted, rule="G-PYTRAP"):
+    """Three positive patterns that are wrong whenever they occur:
+    (is-literal)  `x is 0` / `x is "a"` / `x is ()` - identity of a literal is an implementation accident (small-int / string
+                  interning), the comparison is meant by value;
+    (none-result) the result of an in-place list operation is used as a value: `xs = xs.sort()`, `return edges.reverse()`,
+                  `for e in pool.extend(more)` - it is None;
+    (late-bind)   a lambda / nested function created in a loop reads the loop variable and is STORED (appended, put in a dict,
+                  returned) instead of being called in the same iteration: every stored function sees the last value."""
+    v = ctx.view(dotted)
+    fi = v.fi
+    f = fi.short
+    res.rules.setdefault(rule, "no identity test against a literal, no use of the (None) result of an in-place list operation, no loop-variable capture by a closure that outlives its iteration")
+    n = 0
+    for c in walk_no_nested(fi.node):
+        if isinstance(c, ast.Compare) and any(isinstance(o, (ast.Is, ast.IsNot)) for o in c.ops):
+            operands = [c.left] + list(c.comparators)
+            # (a chained comparison `None is not w != 1`: only the operands of the identity operator itself count)
+            sides = [x for i_, o in enumerate(c.ops) if isinstance(o, (ast.Is, ast.IsNot)) for x in (operands[i_], operands[i_ + 1])]
+            for side in sides:
+                lit = isinstance(side, ast.Constant) and side.value is not None and not isinstance(side.value, bool) and side.value is not Ellipsis
+                lit = lit or (isinstance(side, (ast.Tuple, ast.List, ast.Dict, ast.Set)) and not getattr(side, "elts", getattr(side, "keys", [])))
+                if not lit and not (isinstance(side, ast.Constant) and (side.value is None or isinstance(side.value, bool))):
+                    # identity between two VALUES of a value kind (node labels, times, layers, weights, ids, sizes): equal labels /
+                    # times are different objects as soon as they are computed or parsed (ints above 256, strings built at run time)
+                    try:
+                        from .kinds import Atom as _At, strip_none as _sn
+
+                        k_ = _sn(ctx.interp.kind_at(fi, side))
+                    except Exception:
+                        k_ = None
+                    other_none = any(isinstance(o_, ast.Constant) and (o_.value is None or isinstance(o_.value, bool)) for o_ in sides if o_ is not side)
+                    if isinstance(k_, _At) and k_.name in ("NODE", "TIME", "LAYER", "WEIGHT", "EID", "SIZE", "ORDER") and not other_none:
+                        n += 1
+                        res.violation(rule, f, norm(c)[:100], "is-value", f"`{norm(c)[:60]}` compares two {k_.name.lower()} values by IDENTITY: equal values are the same object only by accident of the interpreter (small ints, interned literals) - for labels / times that are computed or read from a file the test fails although the values are equal", loc(fi, c))
+                        break
+                if lit:
+                    n += 1
+                    res.violation(rule, f, norm(c)[:100], "is-literal", f"`{norm(c)[:60]}` tests IDENTITY with a literal: whether two equal ints / strings / empty tuples are the same object is an interpreter detail - the test is false for values that are merely equal (large ints, computed strings, numpy scalars)", loc(fi, c))
+                    break
+
+    def known_list(e):
+        def is_list_expr(r):
+            return isinstance(r, (ast.List, ast.ListComp)) or (isinstance(r, ast.Call) and isinstance(r.func, ast.Name) and r.func.id in ("list", "sorted"))
+
+        if isinstance(e, ast.Name):
+            defs = [a.value for a in walk_no_nested(fi.node) if isinstance(a, ast.Assign) and len(a.targets) == 1 and isinstance(a.targets[0], ast.Name) and a.targets[0].id == e.id]
+            return bool(defs) and any(is_list_expr(d) for d in defs)
+        return is_list_expr(e)
+
+    for c in walk_no_nested(fi.node):
+        if isinstance(c, ast.Call) and isinstance(c.func, ast.Attribute) and c.func.attr in ("sort", "reverse", "extend", "append", "insert") and known_list(c.func.value):
+            par = v.parent.get(id(c))
+            used = isinstance(par, (ast.Assign, ast.Return, ast.For, ast.comprehension, ast.AugAssign)) and not (isinstance(par, ast.For) and par.iter is not c) or (isinstance(par, ast.Call) and c in par.args)
+            if isinstance(par, ast.Return) and par.value is not c:
+                used = False
+            if isinstance(par, ast.Assign) and par.value is not c:
+                used = False
+            if used:
+                n += 1
+                res.violation(rule, f, norm(par if not isinstance(par, ast.comprehension) else c)[:100], "none-result", f"`{norm(c)[:50]}` works in place and returns None; its result is used as a value here", loc(fi, c))
+    for lp in walk_no_nested(fi.node):
+        if not isinstance(lp, (ast.For, ast.While)):
+            continue
+        tv = {x.id for x in ast.walk(lp.target) if isinstance(x, ast.Name)} if isinstance(lp, ast.For) else set()
+        if not tv:
+            continue
+        for fn in [y for st in lp.body for y in ast.walk(st) if isinstance(y, (ast.Lambda, ast.FunctionDef))]:
+            params = {a.arg for a in fn.args.args + fn.args.kwonlyargs} | ({fn.args.vararg.arg} if fn.args.vararg else set()) | ({fn.args.kwarg.arg} if fn.args.kwarg else set())
+            body = fn.body if isinstance(fn.body, list) else [fn.body]
+            free = {x.id for b in body for x in ast.walk(b) if isinstance(x, ast.Name) and isinstance(x.ctx, ast.Load)} - params
+            # default-argument binding `lambda x, i=i: ...` evaluates now: those names are parameters, already removed
+            captured = free & tv
+            if not captured:
+                continue
+            par = v.parent.get(id(fn)) if isinstance(fn, ast.Lambda) else None
+            stored = False
+            if isinstance(fn, ast.Lambda):
+                # stored: appended / inserted / assigned into a container, or returned / yielded; not: passed to a call that runs now
+                p = par
+                if isinstance(p, ast.Call) and isinstance(p.func, ast.Attribute) and p.func.attr in ("append", "add", "insert", "setdefault") and fn in p.args:
+                    stored = True
+                if isinstance(p, ast.Assign) and any(isinstance(t, ast.Subscript) for t in p.targets):
+                    stored = True
+                if isinstance(p, (ast.Return, ast.Yield)):
+                    stored = True
+                if isinstance(p, ast.Dict):
+                    stored = True
+            else:
+                # a nested def: stored when its NAME is appended / assigned into a container in the loop
+                for y in [y for st in lp.body for y in ast.walk(st)]:
+                    if isinstance(y, ast.Call) and isinstance(y.func, ast.Attribute) and y.func.attr in ("append", "add", "insert") and any(isinstance(a_, ast.Name) and a_.id == fn.name for a_ in y.args):
+                        stored = True
+                    if isinstance(y, ast.Assign) and any(isinstance(t, ast.Subscript) for t in y.targets) and isinstance(y.value, ast.Name) and y.value.id == fn.name:
+                        stored = True
+            if stored:
+                n += 1
+                res.violation(rule, f, norm(fn)[:100], "late-bind", f"the function created here reads the loop variable `{sorted(captured)[0]}` when it is CALLED, not when it is created, and it is stored for later: after the loop every stored function sees the last value", loc(fi, fn))
+    if n == 0:
+        res.ok(rule, f, "no identity test with a literal / used None result / late-bound loop variable", "scan", loc(fi, fi.node))
+
+
+def check_lossy_keys(ctx, res: Result, dotted, rule="G-LOSSYKEY"):
+    """A de-duplication / memo KEY built with set() / frozenset() forgets order AND multiplicity.  Three shapes in which what is
+    forgotten is exactly what tells two records apart:
+    (merged-parts) the set is taken over the concatenation of two components of ONE record (`frozenset(edge[0] + edge[1])`): which
+                   component a member came from - source vs target - is lost, two different records collide;
+    (multiset)     the set is taken over a SLICE of a tuple (`frozenset(t[2:])`): repeated values collapse, (2, 2, 1) and (2, 1, 1)
+                   get one key;
+    (nested)       a function that freezes a nested list recursively (`frozenset(key(x) if isinstance(x, list) else x for x in ...)`):
+                   a [source, target] pair becomes an unordered pair of sets, so a record and its reverse collide."""
+    v = ctx.view(dotted)
+    fi = v.fi
+    f = fi.short
+    res.rules.setdefault(rule, "de-duplication / memo keys keep what distinguishes records: no set over merged components, over a slice with repeats, or over a recursively frozen [source, target] pair")
+    n = 0
+
+    def is_setcall(c):
+        return isinstance(c, ast.Call) and isinstance(c.func, ast.Name) and c.func.id in ("frozenset", "set") and len(c.args) == 1
+
+    def used_as_key(c):
+        """the set expression (or a tuple containing it) is a dict key / set member / membership operand, or what a `*key*` function returns"""
+        cur, par = c, v.parent.get(id(c))
+        while isinstance(par, (ast.Tuple, ast.Starred)):
+            cur, par = par, v.parent.get(id(par))
+        if isinstance(par, ast.Subscript) and par.slice is cur:
+            return True
+        if isinstance(par, ast.Compare) and any(isinstance(o, (ast.In, ast.NotIn)) for o in par.ops) and par.left is cur:
+            return True
+        if isinstance(par, ast.Call) and isinstance(par.func, ast.Attribute) and par.func.attr in ("add", "setdefault", "get", "pop", "discard") and par.args and par.args[0] is cur:
+            return True
+        if isinstance(par, ast.Return) and ("key" in fi.name.lower() or "signature" in fi.name.lower()):
+            return True
+        if isinstance(par, ast.Assign) and len(par.targets) == 1 and isinstance(par.targets[0], ast.Name):
+            nm = par.targets[0].id
+            for u in walk_no_nested(fi.node):
+                if isinstance(u, ast.Name) and u.id == nm and isinstance(u.ctx, ast.Load) and u is not cur:
+                    pu = v.parent.get(id(u))
+                    while isinstance(pu, ast.Tuple):
+                        u, pu = pu, v.parent.get(id(pu))
+                    if (isinstance(pu, ast.Subscript) and pu.slice is u) or (isinstance(pu, ast.Compare) and pu.left is u and any(isinstance(o, (ast.In, ast.NotIn)) for o in pu.ops)) or (isinstance(pu, ast.Call) and isinstance(pu.func, ast.Attribute) and pu.func.attr in ("add", "setdefault") and pu.args and pu.args[0] is u):
+                        return True
+        return False
+
+    for c in walk_no_nested(fi.node):
+        if not is_setcall(c):
+            continue
+        a = c.args[0]
+        shape = None
+        # merged parts: X[i] + X[j] / (*X[i], *X[j]) / chain(X[i], X[j])
+        parts = []
+        if isinstance(a, ast.BinOp) and isinstance(a.op, ast.Add):
+            parts = [a.left, a.right]
+        elif isinstance(a, (ast.Tuple, ast.List)) and a.elts and all(isinstance(e, ast.Starred) for e in a.elts):
+            parts = [e.value for e in a.elts]
+        elif isinstance(a, ast.Call) and norm(a.func).split(".")[-1] == "chain":
+            parts = list(a.args)
+        if len(parts) == 2 and all(isinstance(p_, ast.Subscript) and isinstance(p_.slice, ast.Constant) for p_ in parts) and norm(parts[0].value) == norm(parts[1].value) and parts[0].slice.value != parts[1].slice.value:
+            shape = ("merged-parts", f"`{norm(c)[:50]}` merges two components of one record into a single set: which component a member belongs to (source vs target) is forgotten, so two different records over the same members get the same key and one of them is silently dropped / overwritten")
+        elif isinstance(a, ast.Subscript) and isinstance(a.slice, ast.Slice):
+            shape = ("multiset", f"`{norm(c)[:50]}` turns a slice of a tuple into a set: repeated values collapse, so tuples that differ only in how often a value occurs share one key (and one cached result)")
+        elif isinstance(a, (ast.GeneratorExp, ast.ListComp)) and any(isinstance(x, ast.Call) and isinstance(x.func, ast.Name) and x.func.id == fi.name for x in ast.walk(a.elt)):
+            shape = ("nested", f"`{fi.name}` freezes a nested list recursively into sets of sets: an ordered [source, target] pair becomes an unordered pair, so a record and its reverse get the same key")
+        if shape is None:
+            continue
+        if shape[0] == "nested" or used_as_key(c):
+            n += 1
+            res.violation(rule, f, norm(c)[:100], shape[0], shape[1], loc(fi, c))
+    if n == 0:
+        res.ok(rule, f, "no lossy de-duplication key", "scan", loc(fi, fi.node))
+
+
+def check_tristate_flag(ctx, res: Result, dotted, rule="G-TRISTATE"):
+    """A flag with THREE states - None (undecided), False (decided: no), True (decided: yes) - is tested by truthiness to fill
+    in the default: `if not self.flag: self.flag = True` also overwrites a False that an earlier step set on purpose."""
+    v = ctx.view(dotted)
+    fi = v.fi
+    f = fi.short
+    res.rules.setdefault(rule, "a None / False / True flag is completed with `is None`, never with `if not flag: flag = True` (a deliberate False would be overwritten)")
+    n = 0
+
+    def ref(e):
+        if isinstance(e, ast.Name):
+            return ("local", e.id)
+        if isinstance(e, ast.Attribute) and isinstance(e.value, ast.Name) and e.value.id == "self":
+            return ("self", e.attr)
+        return None
+
+    def assigned_consts(r):
+        vals = set()
+        scopes = [m.node for m in fi.cls.methods.values()] if (r[0] == "self" and fi.cls is not None) else [fi.node]
+        for sc in scopes:
+            for a in ast.walk(sc):
+                if isinstance(a, ast.Assign) and isinstance(a.value, ast.Constant) and any(ref(t) == r for t in a.targets):
+                    vals.add(a.value.value)
+                if isinstance(a, ast.AnnAssign) and isinstance(a.value, ast.Constant) and ref(a.target) == r:
+                    vals.add(a.value.value)
+        return vals
+
+    for iff in walk_no_nested(fi.node):
+        if not isinstance(iff, ast.If):
+            continue
+        t = iff.test
+        if not (isinstance(t, ast.UnaryOp) and isinstance(t.op, ast.Not) and ref(t.operand) is not None):
+            continue
+        r = ref(t.operand)
+        sets_true = [a for b in iff.body for a in ast.walk(b) if isinstance(a, ast.Assign) and isinstance(a.value, ast.Constant) and a.value.value is True and any(ref(tg) == r for tg in a.targets)]
+        if not sets_true:
+            continue
+        vals = assigned_consts(r)
+        if None in vals and False in vals and True in vals:
+            n += 1
+            res.violation(rule, f, norm(iff.test) + ": " + norm(sets_true[0]), r[1], f"`{r[1]}` is a three-state flag (None = undecided, False and True are both assigned elsewhere); `if {norm(iff.test)}` is true for None AND for False, so the default `= True` overwrites a False that was set deliberately - the negative verdict is lost", loc(fi, iff))
+    if n == 0:
+        res.ok(rule, f, "no truthiness completion of a three-state flag", "scan", loc(fi, fi.node))
+
+
+def check_trace_of_elementwise(ctx, res: Result, dotted, rule="N-TRACEMUL"):
+    """`np.trace(A * B)` with two different matrices: `*` is the ELEMENTWISE product, whose trace is sum_i a_ii b_ii - the
+    off-diagonal entries of both factors are ignored.  The trace of the matrix product (sum_ij a_ij b_ji) is `np.trace(A @ B)` or
+    `np.sum(A * B.T)`; writing one for the other silently drops every cross term."""
+    v = ctx.view(dotted)
+    fi = v.fi
+    f = fi.short
+    res.rules.setdefault(rule, "the trace of a product of two matrices is taken of the matrix product (`@`), not of the elementwise product (`*`)")
+    n = 0
+    for c in walk_no_nested(fi.node):
+        if isinstance(c, ast.Call) and norm(c.func).split(".")[-1] == "trace" and c.args:
+            a = c.args[0]
+            if isinstance(a, ast.Name):
+                a = v.inline(a, depth=1)
+            if isinstance(a, ast.BinOp) and isinstance(a.op, ast.Mult) and not any(isinstance(x, ast.Constant) for x in (a.left, a.right)) and norm(a.left) != norm(a.right):
+                n += 1
+                res.violation(rule, f, norm(c)[:100], "elementwise", f"`{norm(c)[:60]}` takes the trace of an ELEMENTWISE product: only the diagonal entries of the two factors meet, every cross term (a_ij b_ji with i != j) is dropped - with a non-diagonal factor the value is not the trace of the matrix product", loc(fi, c))
+    if n == 0:
+        res.ok(rule, f, "no trace of an elementwise product", "scan", loc(fi, fi.node))
